@@ -478,6 +478,7 @@ pub fn hot_classes() -> Vec<Vec<u32>> {
         vec![site::AW_LOAD, site::AW_STORE_SWAP, site::AW_SWAP, site::AW_CAS, site::AW_CAS_WEAK, site::AW_CAS_TAG],
         vec![site::RAW_LOAD, site::RAW_STORE, site::RAW_CAS, site::RAW_CAS_WEAK, site::RAW_FETCH_OR],
         vec![crate::sched::SITE_USER, crate::sched::SITE_INNER],
+        vec![site::AUTO],
     ]
 }
 
@@ -636,6 +637,7 @@ pub fn generate(prop: &str, family: &str, seed: u64) -> RunDesc {
         "dir-t12" => crate::dir::t12(prop, seed),
         "dir-t13" => crate::dir::t13(prop, seed),
         "dir-b" => crate::dir::b(prop, seed),
+        "dir-t14" => crate::dir::t14(prop, seed),
         "dir-w" => crate::dir::w(prop, seed),
         "dir-c" => crate::dir::c(prop, seed),
         "client" => crate::fam_client::gen(prop, seed),
